@@ -133,11 +133,41 @@ fn regex<'a, T: Queryable>(lhs: State<'a, T>, rhs: State<'a, T>, substr: bool) -
     };
 
     match (to_str(lhs), to_str(rhs)) {
-        (Some(lhs), Some(rhs)) => Regex::new(&prepare_regex(rhs, substr))
+        (Some(lhs), Some(rhs)) => Regex::new(&iregexp_dots(&prepare_regex(rhs, substr)))
             .map(|re| to_state(regex(&lhs, re)))
             .unwrap_or(to_state(false)),
         _ => to_state(false),
     }
+}
+
+/// In I-Regexp (RFC 9485) a dot matches any character except `\n` and `\r`, while the
+/// `regex` crate only excludes `\n`. Following RFC 9485 section 5.3, every unescaped dot
+/// outside a character class is replaced with `[^\n\r]`.
+fn iregexp_dots(pattern: &str) -> String {
+    let mut res = String::with_capacity(pattern.len());
+    let mut in_class = false;
+    let mut chars = pattern.chars();
+    while let Some(c) = chars.next() {
+        match c {
+            '\\' => {
+                res.push(c);
+                if let Some(escaped) = chars.next() {
+                    res.push(escaped);
+                }
+            }
+            '[' if !in_class => {
+                in_class = true;
+                res.push(c);
+            }
+            ']' if in_class => {
+                in_class = false;
+                res.push(c);
+            }
+            '.' if !in_class => res.push_str("[^\\n\\r]"),
+            _ => res.push(c),
+        }
+    }
+    res
 }
 
 fn prepare_regex(pattern: String, substring: bool) -> String {
